@@ -100,6 +100,7 @@ def model_request(case, perm=0):
     cfgd = None
     for path, content in case.get("files", {}).items():
         mp = DEFAULT_CONFIG_PATH if path == "@default-config" else path
+        if isinstance(content, dict) and "symlink" in content: content = case["files"][content["symlink"]]
         pairs.append(("path", b_(mp)))
         if content == "DIR": pairs.append(("dir", True))
         elif isinstance(content, dict):
@@ -181,7 +182,9 @@ def materialize(case, root):
         if os.path.isabs(path) and not path.startswith(root): raise ValueError("absolute path outside case dir: " + path)
         os.makedirs(os.path.dirname(p) or root, exist_ok=True)
         if content == "DIR": os.makedirs(p, exist_ok=True)
+        elif isinstance(content, dict) and "symlink" in content: os.symlink(content["symlink"], p)
         elif isinstance(content, dict): open(p, "wb").write(cfg_file_text(content["cfg"]))
+        elif path in case.get("fifo", []): os.mkfifo(p)
         else: open(p, "wb").write(content)
 
 TS = re.compile(rb"^\d{4}/\d\d/\d\d \d\d:\d\d:\d\d ")
@@ -220,7 +223,10 @@ def run_cli_case(impl, case, workdir, timeout=20, cover=False):
             inner = "mount --bind %s /root && cd %s && exec \"$@\"" % (sh_quote(home), sh_quote(d))
             cmd = ["unshare", "-m", "sh", "-c", inner, "sh"] + cmd
         try:
-            p = subprocess.run(cmd, cwd=d, env=full_env, stdout=subprocess.PIPE, stderr=subprocess.PIPE, timeout=timeout)
+            if case.get("fifo"):
+                p = run_with_fifos(cmd, d, full_env, case, timeout)
+            else:
+                p = subprocess.run(cmd, cwd=d, env=full_env, stdout=subprocess.PIPE, stderr=subprocess.PIPE, timeout=timeout)
         except subprocess.TimeoutExpired:
             return dict(status="timeout", stdout=b"", raw_err="timeout", rc=None)
         err = TS.sub(b"", p.stderr).decode("utf-8", "surrogateescape")
@@ -230,6 +236,34 @@ def run_cli_case(impl, case, workdir, timeout=20, cover=False):
         return dict(status=status, stdout=p.stdout, raw_err=err, rc=p.returncode)
     finally:
         shutil.rmtree(d, ignore_errors=True)
+
+def run_with_fifos(cmd, d, env, case, timeout):
+    """the named files are FIFOs fed by writer threads (a file that is readable but has no size)"""
+    import threading, time, errno
+    proc = subprocess.Popen(cmd, cwd=d, env=env, stdout=subprocess.PIPE, stderr=subprocess.PIPE)
+    def feed(path, data):
+        t0 = time.time()
+        while proc.poll() is None and time.time() - t0 < timeout:
+            try: fd = os.open(path, os.O_WRONLY | os.O_NONBLOCK)
+            except OSError as e:
+                if e.errno == errno.ENXIO: time.sleep(0.002); continue     # nobody reads yet
+                return
+            try:
+                os.set_blocking(fd, True)
+                view = memoryview(data)
+                while view:
+                    n = os.write(fd, view[:65536]); view = view[n:]
+            except OSError: pass
+            finally: os.close(fd)
+            return
+    ths = [threading.Thread(target=feed, args=(os.path.join(d, p), case["files"][p]), daemon=True) for p in case["fifo"]]
+    for t in ths: t.start()
+    try: out, err = proc.communicate(timeout=timeout)
+    except subprocess.TimeoutExpired:
+        proc.kill(); proc.communicate(); raise
+    class R: pass
+    r = R(); r.returncode, r.stdout, r.stderr = proc.returncode, out, err
+    return r
 
 def sh_quote(s): return "'" + s.replace("'", "'\\''") + "'"
 
